@@ -38,3 +38,4 @@ def run(ctx):
     from . import round3 as R3
     R3.r04_10_key_test_table(ctx)
     R3.r11_7_per_call_loader(ctx, 'R04.11')
+    R3.r03_15_tag_class_direction(ctx, 'R04.12')
